@@ -1,10 +1,12 @@
 """Classes of Persist.tla (module level: they must pickle)."""
-from traits.api import (HasTraits, Int, List, Dict, Set, Str, Instance, ReadOnly, Property, cached_property, observe)
+from traits.api import (HasTraits, Int, List, Dict, Set, Str, Instance, ReadOnly, Property, cached_property, observe, Any,
+                        DelegatesTo)
 
 
 class Leaf(HasTraits):
     value = Int
     items = List(Int)
+    grid = List(Any)          # holds plain lists: a deep copy must not share them
 
 
 class Obj(HasTraits):
@@ -20,6 +22,14 @@ class Obj(HasTraits):
     obs_count = Int(transient=True)
     post_count = Int(transient=True)
     total = Property(Int, observe="xs.items")
+    total2 = Property(Int, depends_on="xs[]")      # legacy dependency declaration, cached
+    cgrid = DelegatesTo("child", "grid")           # a deferred attribute whose target is a container of containers
+    seen_total2 = Int(transient=True)
+
+    def _n_changed(self):
+        # a static handler of a trait copied BEFORE xs that reads the cached property (also while the object is being
+        # filled in by copy_traits / clone_traits / __setstate__)
+        self.seen_total2 = self.total2
 
     @observe("xs.items")
     def _count_items(self, event):
@@ -31,4 +41,8 @@ class Obj(HasTraits):
 
     @cached_property
     def _get_total(self):
+        return sum(self.xs)
+
+    @cached_property
+    def _get_total2(self):
         return sum(self.xs)
